@@ -627,11 +627,19 @@ def gen_slave(rng, skew, pool):
                                                               sign_alg='none')])
         return out
 
-    for new in seq:
+    names = iter(['c10slaveB', 'c10slaveC', 'c10slaveD'])
+    rename_at = set(rng.sample(range(len(seq) + 1), 2)) | {0 if rng.random() < 0.5 else len(seq)}
+    for i, new in enumerate(seq):
+        if i in rename_at:
+            now8 += rng.randint(8, 800)
+            steps.append({'now8': now8, 'rename': next(names), 'events': events(now8, cur, prev)})
         now8 += rng.randint(8, 800)
         if new is not None:
             prev, cur = (cur, new) if new != cur else (prev, cur)
         steps.append({'now8': now8, 'fwd': new, 'events': events(now8, cur, prev)})
+    if len(seq) in rename_at:
+        now8 += rng.randint(8, 800)
+        steps.append({'now8': now8, 'rename': next(names), 'events': events(now8, cur, prev)})
     now8 += rng.randint(8, 800)
     off = pws[5]
     steps.append({'now8': now8, 'offline_fwd': off, 'events': events(now8, off, cur)})
@@ -853,6 +861,10 @@ async def do_slave(conn, sc):
     FakeSlave.reset(sc['pw0'])
     name = 'c10slave'
     J = json.dumps
+    code, data = await conn.request('GET', '/api/devices', admin_headers())
+    if code == 200:
+        for d in json.loads(data):       # nothing left over from an earlier scenario
+            await conn.request('DELETE', '/api/devices/%s' % d['name'], admin_headers())
     code, data = await conn.request('POST', '/api/devices', admin_headers(), J(
         {'scheme': 'http', 'host': 'c10slave.invalid', 'port': 80, 'path': '/api', 'admin_password': sc['pw0'],
          'poll_interval': 1, 'listen_enabled': False}).encode())
@@ -863,7 +875,27 @@ async def do_slave(conn, sc):
         for step in sc['steps']:
             CLOCK[0] = step['now8'] / 8
             pending = None
-            if 'fwd' in step:
+            if 'rename' in step:
+                n0 = len(FakeSlave.log)
+                code, data = await conn.request('PATCH', '/api/devices/%s/forward/device' % name, admin_headers(),
+                                                J({'name': step['rename']}).encode())
+                renamed = code in (200, 204) and FakeSlave.attrs.get('name') == step['rename']
+                recs.append({'type': 'rename', 'to': step['rename'], 'status': code, 'ok': renamed})
+                if not renamed:
+                    break
+                k += 1
+                known = await wait_slave(conn, step['rename'], True, 8)
+                # what the hub sent while adding the slave again under its new name
+                seen = [e for e in FakeSlave.log[n0:] if e[0] == 'GET' and e[1] == '/device']
+                if seen:
+                    e = seen[0]
+                    recs.append({'type': 'hubhdr', 'now8': step['now8'], 'k': k, 'hdr': e[2], 'verdict': e[3], 'slave_pw': e[5],
+                                 'status': 0, 'label': 'slave:hub-header-on-readd'})
+                if not known:
+                    recs.append({'type': 'lost', 'now8': step['now8'], 'k': k, 'name': step['rename']})
+                    break
+                name = step['rename']
+            elif 'fwd' in step:
                 body = {'admin_password': step['fwd']} if step['fwd'] is not None else {'display_name': 'c10-%d' % k}
                 code, data = await conn.request('PATCH', '/api/devices/%s/forward/device' % name, admin_headers(), J(body).encode())
                 ok = code in (200, 204)
@@ -930,7 +962,10 @@ async def do_slave(conn, sc):
                              'slave_bit': 'set' if FakeSlave.pw else '', 'leak': scan(lst, sc['secrets'])})
     finally:
         FakeSlave.down = False
-        await conn.request('DELETE', '/api/devices/%s' % name, admin_headers())
+        code, data = await conn.request('GET', '/api/devices', admin_headers())
+        if code == 200:
+            for d in json.loads(data):
+                await conn.request('DELETE', '/api/devices/%s' % d['name'], admin_headers())
     return recs
 
 
@@ -1337,8 +1372,21 @@ def build_shard(hist, hres, info, res, stats):
                         sops.append(rec['pw'])
                     else:
                         res['tie_failures'].append({'note': 'forwarded PATCH /device was not accepted', 'status': rec['status']})
+                elif t == 'rename':
+                    stats['slave:rename'] = stats.get('slave:rename', 0) + 1
+                    if rec['ok']:
+                        sops.append('__rename__')
+                    else:
+                        res['tie_failures'].append({'note': 'forwarded rename was not accepted', 'status': rec['status']})
+                elif t == 'lost':
+                    # the hub no longer knows the slave after renaming it: as a case, "the hub shows a password" is not the
+                    # point - report it through the oracle as a device list that fails (kind 7 with an impossible value)
+                    plist.append((rec['now8'], {'kind': 7, 'mut': 'slave:lost-after-rename', 'sk': rec['k'], 'sops': list(sops),
+                                                'ckey': '', 'pending': False},
+                                  {'bits7': ['<slave %s unknown to the hub after the rename>' % rec['name'], '', '', False],
+                                   'leak': None}))
                 elif t == 'hubhdr':
-                    plist.append((rec['now8'], {'kind': 5, 'mut': 'slave:hub-header', 'sk': rec['k'], 'ckey': rec['slave_pw'],
+                    plist.append((rec['now8'], {'kind': 5, 'mut': rec.get('label', 'slave:hub-header'), 'sk': rec['k'], 'ckey': rec['slave_pw'],
                                                 'sops': list(sops)},
                                   {'hdr': rec['hdr'], 'direct': rec['verdict']}))
                 elif t == 'event':
@@ -1455,7 +1503,8 @@ def build_shard(hist, hres, info, res, stats):
         % coq.lst(sorted(sha_tbl.items()), lambda kv: '(%s, %s)' % (cpw(kv[0]), coq.string(kv[1])))
         + 'Definition ops : list op := %s.\n' % coq.lst(ops, cop)
         + 'Definition spw0 : string := %s.\n' % cpw(spw0)
-        + 'Definition sops : list (option string) := %s.\n' % coq.lst(sops, lambda x: coq.option(x, cpw))
+        + 'Definition sops : list sop := %s.\n'
+        % coq.lst(sops, lambda x: 'SRename' if x == '__rename__' else '(SFwd %s)' % coq.option(x, cpw))
         + 'Definition cases : list hcase := [\n  %s].\n' % ';\n  '.join(cases)
     )
     return body, meta
@@ -1564,6 +1613,9 @@ def violation(m):
         what = 'a request without Authorization header got %s after %d operations, which contradicts the specification' % (
             oc, len(m['actions']))
         key = {'observe': 'no-header', 'outcome': oc, 'granted': oc != 'http:none'}
+    elif m['kind'] == 7 and m['mut'] == 'slave:lost-after-rename':
+        what = ('after the slave operations %r the hub no longer knows the slave: %s' % (m['sops'], m['bits7'][0]))
+        key = {'observe': 'slave-lost-after-rename', 'granted': False}
     elif m['kind'] == 7:
         what = ('GET /devices (or the intercepted GET /devices/<name>/forward/device) shows admin_password=%r / %r for a slave%s%s: '
                 'the API must show "set"/"" only, never a password' % (
